@@ -48,3 +48,5 @@ with open(ROOT + "/seeded/RESULTS.md", "w") as f:
         f.write("| " + " | ".join(x.replace("|", "\\|") for x in row) + " |\n")
     det = sum(1 for r in rows if r[2].startswith("VIOLATION"))
     f.write(f"\n{det} of {len(rows)} detected; the rest are undecided (exit 2: the changed code left the extractable/provable subset) or missed.\n")
+# runs on mutated trees rewrite evidence/*.json: put the committed evidence (from the unchanged tree) back
+subprocess.run(f"git -C {ROOT} checkout -- evidence", shell=True)
